@@ -17,9 +17,10 @@ META = dict(
                 'leaf objects; the frame theorem (proved): every operation addressed inside one root and handed values from some roots leaves every OTHER root the user holds '
                 'exactly as it was, for every later history, hence no later mutation of either copy is observable through the other -- also over the slice / merge operations '
                 'of the C02 extension of the model (C07_independence_full_surface, C07_independence_history_full_surface). Tie: correspondence on generated histories '
-                '(clone, copy.copy, copy.deepcopy, Dict.copy followed by mutations of either copy), flag-combination sweep (exhaustive), direct oracle on every step.'),
-    level_note=('Trusted: Coq kernel; extraction cross-checked against vm_compute; driver/generator. Not modelled: value_spec binding of the copy (C03), pg.Ref leaves '
-                '(shared by design), geno/hyper _sym_clone overrides, clone(override=...).'),
+                '(clone, copy.copy, copy.deepcopy, Dict.copy followed by mutations of either copy), flag-combination sweep (exhaustive), sweeps over tuple leaves, scopes and the node '
+                'types with their own _sym_clone (pg.Ref, functor objects, geno.DNA metadata, hyper primitives), direct oracle on every step.'),
+    level_note=('Trusted: Coq kernel; extraction cross-checked against vm_compute; driver/generator. Not modelled (oracle-only sweeps): value_spec binding of the copy (C03), pg.Ref '
+                '(the referenced value is shared by design), functor / geno.DNA / hyper _sym_clone overrides. Not covered: clone(override=...).'),
     rule='a case is (forest literal, list of (scope stack, operation)); non-trivial when it contains a successful clone/copy of a tree with a nested symbolic node followed by at least one successful mutation',
     trusted_base=['extraction: ExtrOcamlBasic only; ocaml/main.ml lexer/printer; cross-checked against vm_compute on a sample',
                   'implementation driver harness/props/symcore_driver.py and generator symcore_gen.py'],
@@ -155,6 +156,7 @@ def extras(ctx):
   flag_sweep(ctx)
   tuple_sweep(ctx)
   scope_sweep(ctx)
+  special_sweep(ctx)
 
 # ----------------------------------------------------------------------------------------------------
 # Oracle-only sweeps over values the SymCore model does not contain.
@@ -284,6 +286,181 @@ def tuple_sweep(ctx):
                                   'mutation of everything below one copy invisible in the other')
   ctx.log('tuple sweep (oracle only): %d cases' % n)
 
+# ----------------------------------------------------------------------------------------------------
+# Node types with their own _sym_clone (oracle only): pg.Ref, pg.functor objects, geno.DNA (metadata), hyper primitives (oneof / manyof /
+# floatv, free and bound to a typed field).  Fidelity of flags per node, equality, deep copies share no mutable object (DNA: also inside the
+# cloneable metadata; pg.Ref: the referenced value is shared by design), independence of what the copies REPORT (a functor's bound / specified
+# arguments), schema binding of a primitive inside a copied parent.
+_SPECIAL = []
+def special_classes():
+  if not _SPECIAL:
+    P = D.pg()
+    @P.functor()
+    def c07_fn(x=1, y=2, z=3):
+      return (x, y, z)
+    @P.members([('p', P.typing.Int()), ('q', P.typing.Any(default=None))])
+    class C07Bound(P.Object):
+      pass
+    _SPECIAL.extend([c07_fn, C07Bound])
+  return _SPECIAL
+
+def special_values():
+  P = D.pg()
+  F, Bound = special_classes()
+  A, B, C = D.classes()
+  def dna():
+    d = P.DNA([0, 1])
+    d.set_metadata('m', [D.Opq(1), P.Dict(q=D.Opq(2))], cloneable=True)
+    d.set_metadata('n', 5, cloneable=True)
+    return d
+  yield 'Ref', lambda: P.Ref(P.Dict(a=1))
+  yield 'Dict{Ref}', lambda: P.Dict(r=P.Ref(P.Dict(a=1)), k=[P.Ref(P.List([1]))])
+  yield 'Object(Ref)', lambda: B(x=P.Ref(P.Dict(a=1)), y=1)
+  yield 'Functor', lambda: F(x=5, y=P.Dict(a=D.Opq(3)))
+  yield 'Dict{Functor}', lambda: P.Dict(f=F(x=5), l=[F(y=P.List([D.Opq(4)]))])
+  yield 'DNA', dna
+  yield 'List[DNA]', lambda: P.List([dna(), 1])
+  yield 'OneOf', lambda: P.oneof([1, P.Dict(a=D.Opq(5)), 3])
+  yield 'ManyOf', lambda: P.manyof(2, [1, 2, P.Dict(a=1)])
+  yield 'Float', lambda: P.floatv(0.0, 1.0)
+  yield 'Object(bound OneOf)', lambda: Bound(p=P.oneof([1, 2]), q=P.manyof(2, [1, 2, 3]))
+  yield 'Dict{Object(bound OneOf)}', lambda: P.Dict(b=Bound(p=P.oneof([1, 2])), o=P.oneof(['a', 'b']))
+
+def _special_nodes(x):
+  """Nodes of x in walk order (descending, for a DNA, into its metadata as well)."""
+  P = D.pg()
+  out = []
+  D.walk(x, lambda n, p, k: out.append(n))      # (the metadata of a DNA is a symbolic field: the walk descends into it)
+  return out
+
+def _flippable(v):
+  """Nodes whose flags the sweep sets and compares: all but the `children` list and an EMPTY `metadata` dict of a DNA (the DNA constructor derives
+  the former again from the value and replaces an empty container by a new one)."""
+  P = D.pg()
+  def derived(n):
+    return isinstance(n.sym_parent, P.DNA) and ((isinstance(n, P.List) and n.sym_path.key == 'children') or (isinstance(n, P.Dict) and n.sym_path.key == 'metadata' and not len(n)))
+  return [n for n in _special_nodes(v) if not derived(n)]
+
+def _special_mutables(x):
+  P = D.pg()
+  out = {}
+  for n in _special_nodes(x):
+    if isinstance(n, P.Ref):
+      out[id(n)] = n          # the reference object itself; the referenced value is shared by design
+      continue
+    mutables(n, out)
+  # a pg.Ref inside: what it refers to is not part of the copy
+  for n in list(out.values()):
+    if isinstance(n, P.Ref) and D.is_sym(n.value):
+      for i in mutables(n.value):
+        out.pop(i, None)
+  return out
+
+def _reported(x):
+  """What the special nodes report about themselves besides their items."""
+  P = D.pg()
+  out = []
+  for n in _flippable(x):
+    row = [type(n).__name__, n.is_sealed, n.accessor_writable, n.allow_partial]
+    if isinstance(n, P.Functor):
+      row += [sorted(n.specified_args), sorted(n.non_default_args), sorted(n.default_args), sorted(n.bound_args)]
+    if isinstance(n, P.DNA):
+      row += [deep_view(n.metadata) if len(n.metadata) else 'no metadata']
+    if isinstance(n, P.Ref):
+      row += [id(n.value)]
+    out.append(row)
+  return out
+
+SPECIAL_FLAGS = {'as built': lambda v: v, 'sealed': lambda v: v.seal(), 'accessor flag flipped on every node': lambda v: ([n.set_accessor_writable(not n.accessor_writable) for n in _flippable(v)], v)[1],
+                 'sealed + flipped': lambda v: ([n.set_accessor_writable(not n.accessor_writable) for n in _flippable(v)], v.seal())[1]}
+
+def special_probe(c):
+  P = D.pg()
+  make = dict(special_values())[c['value']]
+  how = c['how']
+  deep = how in DEEP_COPIES
+  cp = (DEEP_COPIES if deep else SHALLOW_COPIES)[how]
+  out = []
+  dk = 'deep copy' if deep else 'shallow copy'
+  base = c['value'].split('{')[0].split('(')[0].split('[')[0]
+  a = SPECIAL_FLAGS[c['flags']](make())
+  before = _reported(a)
+  try:
+    b = cp(a)
+  except Exception as e:      # pylint: disable=broad-except
+    return [('C07/clone-raises/%s/%s' % (dk, 'DNA' if 'DNA' in c['value'] else base), '%s of %s (%s) raises %s' % (how, c['value'], c['flags'], type(e).__name__))]
+  tag = c['value']
+  if not P.eq(a, b): out.append(('C07/not-equal/%s/%s' % (dk, tag), 'pg.eq(original, copy) is False for %s' % tag))
+  if _reported(a) != before: out.append(('C07/original-modified/%s/%s' % (dk, tag), 'copying changed what the original reports'))
+  ra, rb = _reported(a), _reported(b)
+  if len(ra) != len(rb):
+    out.append(('C07/copy-differs/%s/%s' % (dk, tag), 'the copy has %d nodes, the original %d' % (len(rb), len(ra))))
+  for x, y in zip(ra, rb):
+    if x[:4] != y[:4]:
+      which = ['class', 'sealed', 'accessor_writable', 'allow_partial'][[i for i in range(4) if x[i] != y[i]][0]]
+      out.append(('C07/flag-%s/%s/%s-node' % (which, 'deep copy' if deep else 'shallow copy', x[0]),
+                  '%s of %s (%s): %s of a %s node is %r in the original and %r in the copy' % (how, tag, c['flags'], which, x[0], x[['class', 'sealed', 'accessor_writable', 'allow_partial'].index(which)],
+                                                                                          y[['class', 'sealed', 'accessor_writable', 'allow_partial'].index(which)])))
+      break
+    if x[4:] != y[4:] and x[0] != 'Ref':
+      out.append(('C07/reported-state-differs/%s/%s-node' % ('deep copy' if deep else 'shallow copy', x[0]), '%s of %s: a %s node reports %r, its copy %r' % (how, tag, x[0], x[4:], y[4:])))
+      break
+    if x[0] == 'Ref' and x[4:] != y[4:]:
+      out.append(('C07/reference-retargeted/%s/-' % dk, 'the copy of a pg.Ref refers to another object'))
+  if deep:
+    shared = set(_special_mutables(a)) & set(_special_mutables(b))
+    if shared:
+      kinds = sorted({type(_special_mutables(a)[i]).__name__ for i in shared})
+      out.append(('C07/deep-shared-mutable/deep copy/%s' % ('DNA-metadata' if 'DNA' in tag else base), '%s of %s shares %d mutable object(s) with the original (%s)' % (how, tag, len(shared), ', '.join(kinds))))
+  else:
+    ta, tb = {id(n) for n in _special_nodes(a)}, {id(n) for n in _special_nodes(b)}
+    if ta & tb:
+      out.append(('C07/shallow-shared-node/%s/%s' % (dk, tag), 'a shallow copy shares a symbolic node with the original'))
+  # what the copies report is independent: bind / unbind arguments of every functor of one copy
+  def poke(v):
+    for n in _special_nodes(v):
+      if isinstance(n, P.Functor):
+        with P.as_sealed(False), P.allow_writable_accessors(True):
+          n.rebind(z=99)
+          n.x = 7
+          try: del n.y
+          except Exception: pass      # pylint: disable=broad-except
+      if isinstance(n, P.DNA):
+        with P.as_sealed(False):
+          n.set_metadata('n', 6, cloneable=True)
+  if any(isinstance(n, (P.Functor, P.DNA)) for n in _special_nodes(a)):
+    a1 = SPECIAL_FLAGS[c['flags']](make()); b1 = cp(a1); r0 = _reported(a1)
+    poke(b1)
+    if _reported(a1) != r0:
+      out.append(('C07/mutation-visible/%s/copy-to-original-reported' % dk, 'after binding / un-binding arguments (setting metadata) on the copy of %s the original reports %r, before %r' % (
+          tag, [r[4:] for r in _reported(a1) if len(r) > 4], [r[4:] for r in r0 if len(r) > 4])))
+    a2 = SPECIAL_FLAGS[c['flags']](make()); b2 = cp(a2); r0 = _reported(b2)
+    poke(a2)
+    if _reported(b2) != r0:
+      out.append(('C07/mutation-visible/%s/original-to-copy-reported' % dk, 'after binding / un-binding arguments (setting metadata) on the original %s the copy reports something else' % tag))
+  # schema binding of a hyper primitive that sits in a typed field of a copied parent
+  def bindings(v):
+    return [(type(n).__name__, str(n.sym_path), repr(getattr(n, '_value_spec', None))) for n in _special_nodes(v) if hasattr(n, '_value_spec') and n.sym_parent is not None]
+  if bindings(a) != bindings(b):
+    out.append(('C07/schema-binding/%s/hyper-primitive-in-field' % dk, 'the primitives inside the copy of %s are bound to %r, in the original to %r' % (tag, bindings(b), bindings(a))))
+  return out
+
+def special_sweep(ctx):
+  n = 0
+  for vname, _ in special_values():
+    for fl in SPECIAL_FLAGS:
+      for how in list(DEEP_COPIES) + list(SHALLOW_COPIES):
+        c = dict(kind='special', value=vname, flags=fl, how=how)
+        n += 1
+        ctx.evaluations += 1
+        for sig, what in special_probe(c):
+          ctx.hit(sig, what, c)
+  ctx.extra['special_sweep'] = dict(oracle_only=True, cases=n, what='node types with their own _sym_clone -- pg.Ref, functor objects, geno.DNA with cloneable metadata, oneof / manyof / floatv free and bound to typed '
+                                    'fields -- alone and inside Dict / List / Object, x 4 flag settings x 6 copy routes: pg.eq, per-node flags, reported state (functor argument sets, DNA metadata), no '
+                                    'mutable object shared by deep copies (incl. DNA metadata; the value a pg.Ref refers to is shared by design), binding / un-binding arguments of one copy not reported by '
+                                    'the other, schema binding of primitives inside copied parents')
+  ctx.log('special-node sweep (oracle only): %d cases' % n)
+
 # clones made inside scopes keep the flags of every node (typed children included: they are re-applied by the constructor)
 _TYPED = None
 def typed_classes():
@@ -364,6 +541,8 @@ def replay(ctx, rp):
     return not tuple_probe(rp['case'])
   if rp.get('case', {}).get('kind') == 'scope':
     return not scope_probe(rp['case'])
+  if rp.get('case', {}).get('kind') == 'special':
+    return not special_probe(rp['case'])
   return D.replay_property(ctx, rp, Oracle)
 
 # ----------------------------------------------------------------------------------------------------
